@@ -106,6 +106,21 @@ def cluster_sigma(R, k, cond):
     return [1.0] + mid + [1.0 / cond]
 
 
+FIXED_CLOCKS = [[0.0], [1e-3, -3600.0, 1e6], [1e6], [-1.0], [5e-4, 0.0, 0.0, 7200.0], [1e-9]]
+
+
+def rand_clock(R):
+    """A clock script (increments returned by successive reads, cyclic): one of the fixed ones
+    (frozen, jumping back and forth, huge steps, running backwards, coarse) or a LATE event - a
+    normal clock that makes one big step (suspend / NTP correction, forwards or backwards) after
+    k reads, so that a deadline or rate limiter trips in the middle of an iteration."""
+    if R.random() < 0.5:
+        return R.choice(FIXED_CLOCKS)
+    k = R.choice([R.randint(0, 8), R.randint(0, 8), R.randint(0, 25), R.randint(0, 60)])   # mostly early reads
+    jump = R.choice([7200.0, 1e5, -7200.0, 40.0, 100.0, 4000.0, 1e9])
+    return [1e-3] * k + [jump] + [1e-3] * 400
+
+
 def round_sig(x, n=6):
     if x == 0 or not math.isfinite(x):
         return x
@@ -113,4 +128,4 @@ def round_sig(x, n=6):
 
 
 __all__ = ["sub_rng", "key", "V", "fnum", "finite", "is_qmat", "BaseHooks", "ref_request",
-           "logspace_sigma", "cluster_sigma", "round_sig", "qalg", "gens", "np"]
+           "logspace_sigma", "cluster_sigma", "rand_clock", "round_sig", "qalg", "gens", "np"]
